@@ -92,6 +92,14 @@ CLAIMS = {
          "group and exponent-ring laws derived generically; exp_sub_mod; kernel-checked facts p=2q+1, 1<g<p, g^q=1, cofactor on the "
          "constants regenerated from /repo. Every trait method compared with the model (= independent bigint reference) exhaustively on small groups.", "6 C15",
          "Ristretto laws are a hypothesis; primality of built-in P, Q is a hypothesis."),
+ "C20": ("Theorems: base64 (NO_PAD) round trip, injectivity, canonical decoding (decode s = some bs IFF s = encode bs), rejection of padding / bad characters / impossible lengths; "
+         "the 32/32/64-byte key and signature codecs are lawful (round trip, trailing and truncated encodings rejected), string encodings round-trip; abstract Ed25519 over any additive group "
+         "with a basepoint of order l: honest signatures satisfy the cofactorless (dalek) and the cofactored (zebra/ZIP-215) equation, cofactorless acceptance implies cofactored acceptance, the "
+         "canonical s is unique so every bit flip of s is rejected (l prime-order facts kernel-checked); model-level: signature length, canonical-s requirement, wrong lengths / undecodable keys "
+         "rejected. Stream: an executable RFC 8032 model with both libraries' acceptance rules, byte-identical signatures and public keys for both front-ends, decisions on bit flips, torsion-"
+         "shifted and non-canonical encodings, base64 edge cases (1 700 quick / 22 000 thorough requests).", "6 C20 + 12.6",
+         "Unforgeability-flavoured rejections (bit flip in message, R, public key; another key), the edwards25519 group law and SHA-512 are outside any theorem; the executable curve model is tied "
+         "to ed25519-zebra / ed25519-dalek by differential testing only."),
 }
 
 def main():
